@@ -1,6 +1,7 @@
 package align
 
 import (
+	"math"
 	"fmt"
 	"unicode"
 )
@@ -366,6 +367,13 @@ func (a *pwaligner) backTrack() {
 	}
 }
 
+// sameScore compares two scores of the matrix up to rounding: the fill accumulates
+// gap extensions one by one, the trace-back recomputes open + (n-1)*extend, and
+// with penalties such as -1.1 / -0.3 the two differ in the last bits
+func sameScore(x, y float64) bool {
+	return math.Abs(x-y) <= 1e-9*(1+math.Abs(y))
+}
+
 func (a *pwaligner) backTrack_SW() {
 	var i, j, ngaps int
 	var seq1, seq2, alistr []uint8
@@ -391,7 +399,7 @@ func (a *pwaligner) backTrack_SW() {
 			for {
 				ngaps++
 				gapscore = a.matrix[i-ngaps][j] + a.gapopen + float64(ngaps-1)*a.gapextend
-				if gapscore == a.matrix[i][j] || i-ngaps == 0 {
+				if sameScore(gapscore, a.matrix[i][j]) || i-ngaps == 0 {
 					break
 				}
 			}
@@ -421,7 +429,7 @@ func (a *pwaligner) backTrack_SW() {
 			for {
 				ngaps++
 				gapscore = a.matrix[i][j-ngaps] + a.gapopen + float64(ngaps-1)*a.gapextend
-				if gapscore == a.matrix[i][j] || j-ngaps == 0 {
+				if sameScore(gapscore, a.matrix[i][j]) || j-ngaps == 0 {
 					break
 				}
 			}
